@@ -303,16 +303,18 @@ package evaluator
 //@     invariant forall k Int :: {at(heap, x, k)} 0 <= k && k < iter ==> !specEq(heap, at(heap, x, k), y)
 
 // ---------------------------------------------------------------------------
+// Lemmas (`lemma[tag] n:`) are used like axioms by the function proofs and are themselves proved by induction on n
+// (govc LemmaGens); each may use the lemmas written before it.
 // projections (C01, C17, C19, C15): isEv is the graph of evaluate (a relation between the root,
 // the node, the current value, the scope and a result); the helpers are specified relative to it.
 // log<N>[k] / log<N>e[k] are the results of the N-th evaluate call site in the k-th iteration.
 
 //@ ghost isEv(root Val, node Iface, cur Val, scope Int, r Val) Bool
 //@ ghost nn(L ValArr, n Int) Int = ite(n <= 0, 0, nn(L, n - 1) + ite(L[n - 1] == nil, 0, 1))
-//@ axiom forall L ValArr, n Int, i Int, v Val :: {nn(upd(L, i, v), n)} i >= n ==> nn(upd(L, i, v), n) == nn(L, n)
-//@ axiom forall L ValArr, n Int :: {nn(L, n)} 0 <= nn(L, n) && (n >= 0 ==> nn(L, n) <= n)
-//@ axiom forall L ValArr, k Int, n Int :: {nn(L, k), nn(L, n)} 0 <= k && k < n && L[k] != nil ==> nn(L, k) < nn(L, n)
-//@ axiom forall L ValArr, k Int, n Int :: {nn(L, k), nn(L, n)} k <= n ==> nn(L, k) <= nn(L, n)
+//@ lemma[C01] n: forall L ValArr, n Int, i Int, v Val :: {nn(upd(L, i, v), n)} i >= n ==> nn(upd(L, i, v), n) == nn(L, n)
+//@ lemma[C01] n: forall L ValArr, n Int :: {nn(L, n)} 0 <= nn(L, n) && (n >= 0 ==> nn(L, n) <= n)
+//@ lemma[C01] n: forall L ValArr, k Int, n Int :: {nn(L, k), nn(L, n)} 0 <= k && k < n && L[k] != nil ==> nn(L, k) < nn(L, n)
+//@ lemma[C01] n: forall L ValArr, k Int, n Int :: {nn(L, k), nn(L, n)} k <= n ==> nn(L, k) <= nn(L, n)
 
 //@ ghost sliceNode(n Iface) Bool = isType(n, "*parser.SliceNode") || isType(n, "*parser.SliceCurrentNode") || isType(n, "*parser.SliceStepNode") || isType(n, "*parser.SliceStepCurrentNode")
 //@ func isSliceNode
@@ -443,10 +445,10 @@ package evaluator
 //@     invariant forall k Int :: 0 <= k && k < iter && log1[k] != nil ==> r[nn(log1, k)] == log1[k]
 
 //@ ghost nt(L ValArr, n Int) Int = ite(n <= 0, 0, nt(L, n - 1) + ite(truthy(L[n - 1]), 1, 0))
-//@ axiom forall L ValArr, n Int, i Int, v Val :: {nt(upd(L, i, v), n)} i >= n ==> nt(upd(L, i, v), n) == nt(L, n)
-//@ axiom forall L ValArr, n Int :: {nt(L, n)} 0 <= nt(L, n) && (n >= 0 ==> nt(L, n) <= n)
-//@ axiom forall L ValArr, k Int, n Int :: {nt(L, k), nt(L, n)} 0 <= k && k < n && truthy(L[k]) ==> nt(L, k) < nt(L, n)
-//@ axiom forall L ValArr, k Int, n Int :: {nt(L, k), nt(L, n)} k <= n ==> nt(L, k) <= nt(L, n)
+//@ lemma[C17] n: forall L ValArr, n Int, i Int, v Val :: {nt(upd(L, i, v), n)} i >= n ==> nt(upd(L, i, v), n) == nt(L, n)
+//@ lemma[C17] n: forall L ValArr, n Int :: {nt(L, n)} 0 <= nt(L, n) && (n >= 0 ==> nt(L, n) <= n)
+//@ lemma[C17] n: forall L ValArr, k Int, n Int :: {nt(L, k), nt(L, n)} 0 <= k && k < n && truthy(L[k]) ==> nt(L, k) < nt(L, n)
+//@ lemma[C17] n: forall L ValArr, k Int, n Int :: {nt(L, k), nt(L, n)} k <= n ==> nt(L, k) <= nt(L, n)
 
 //@ func evaluator.filter
 //@   tags C01 C17 C19 C20 C15 C18 C03 C06
@@ -464,11 +466,11 @@ package evaluator
 
 // number of elements that pass the filter and project to a non-null value
 //@ ghost nfp(F ValArr, P ValArr, n Int) Int = ite(n <= 0, 0, nfp(F, P, n - 1) + ite(truthy(F[n - 1]) && P[n - 1] != nil, 1, 0))
-//@ axiom forall F ValArr, P ValArr, n Int, i Int, v Val :: {nfp(upd(F, i, v), P, n)} i >= n ==> nfp(upd(F, i, v), P, n) == nfp(F, P, n)
-//@ axiom forall F ValArr, P ValArr, n Int, i Int, v Val :: {nfp(F, upd(P, i, v), n)} i >= n ==> nfp(F, upd(P, i, v), n) == nfp(F, P, n)
-//@ axiom forall F ValArr, P ValArr, n Int :: {nfp(F, P, n)} 0 <= nfp(F, P, n) && (n >= 0 ==> nfp(F, P, n) <= n)
-//@ axiom forall F ValArr, P ValArr, k Int, n Int :: {nfp(F, P, k), nfp(F, P, n)} 0 <= k && k < n && truthy(F[k]) && P[k] != nil ==> nfp(F, P, k) < nfp(F, P, n)
-//@ axiom forall F ValArr, P ValArr, k Int, n Int :: {nfp(F, P, k), nfp(F, P, n)} k <= n ==> nfp(F, P, k) <= nfp(F, P, n)
+//@ lemma[C17] n: forall F ValArr, P ValArr, n Int, i Int, v Val :: {nfp(upd(F, i, v), P, n)} i >= n ==> nfp(upd(F, i, v), P, n) == nfp(F, P, n)
+//@ lemma[C17] n: forall F ValArr, P ValArr, n Int, i Int, v Val :: {nfp(F, upd(P, i, v), n)} i >= n ==> nfp(F, upd(P, i, v), n) == nfp(F, P, n)
+//@ lemma[C17] n: forall F ValArr, P ValArr, n Int :: {nfp(F, P, n)} 0 <= nfp(F, P, n) && (n >= 0 ==> nfp(F, P, n) <= n)
+//@ lemma[C17] n: forall F ValArr, P ValArr, k Int, n Int :: {nfp(F, P, k), nfp(F, P, n)} 0 <= k && k < n && truthy(F[k]) && P[k] != nil ==> nfp(F, P, k) < nfp(F, P, n)
+//@ lemma[C17] n: forall F ValArr, P ValArr, k Int, n Int :: {nfp(F, P, k), nfp(F, P, n)} k <= n ==> nfp(F, P, k) <= nfp(F, P, n)
 
 //@ func evaluator.filterAndProjectArray
 //@   tags C01 C17 C19 C20 C15 C18 C03 C06
@@ -529,9 +531,9 @@ package evaluator
 
 //@ ghost nnq(h Heap, s Slice, n Int) Int = ite(n <= 0, 0, nnq(h, s, n - 1) + ite(at(h, s, n - 1) == nil, 0, 1))
 
-//@ axiom forall h Heap, s Slice, k Int, n Int :: {nnq(h, s, k), nnq(h, s, n)} 0 <= k && k < n && at(h, s, k) != nil ==> nnq(h, s, k) < nnq(h, s, n)
-//@ axiom forall h Heap, s Slice, k Int, n Int :: {nnq(h, s, k), nnq(h, s, n)} k <= n ==> nnq(h, s, k) <= nnq(h, s, n)
-//@ axiom forall h Heap, s Slice, n Int :: {nnq(h, s, n)} 0 <= nnq(h, s, n) && (n >= 0 ==> nnq(h, s, n) <= n)
+//@ lemma[C01] n: forall h Heap, s Slice, k Int, n Int :: {nnq(h, s, k), nnq(h, s, n)} 0 <= k && k < n && at(h, s, k) != nil ==> nnq(h, s, k) < nnq(h, s, n)
+//@ lemma[C01] n: forall h Heap, s Slice, k Int, n Int :: {nnq(h, s, k), nnq(h, s, n)} k <= n ==> nnq(h, s, k) <= nnq(h, s, n)
+//@ lemma[C01] n: forall h Heap, s Slice, n Int :: {nnq(h, s, n)} 0 <= nnq(h, s, n) && (n >= 0 ==> nnq(h, s, n) <= n)
 
 //@ func pruneArray
 //@   tags C01 C17 C03 C06
@@ -927,8 +929,8 @@ package evaluator
 //@ axiom forall x Dec, y Dec :: {decCmp(x, y)} (decCmp(x, y) == 1 <==> decCmp(y, x) == 0 - 1) && (decCmp(x, y) == 0 <==> decCmp(y, x) == 0)
 //@ axiom forall x Dec, y Dec, z Dec :: {decCmp(x, y), decCmp(z, y)} (decCmp(x, y) == 0 || decCmp(x, y) == 0 - 1) && decCmp(z, y) == 1 ==> decCmp(x, z) == 0 - 1
 //@ axiom forall x Dec, y Dec, z Dec :: {decCmp(x, y), decCmp(z, y)} (decCmp(x, y) == 0 || decCmp(x, y) == 1) && decCmp(z, y) == 0 - 1 ==> decCmp(x, z) == 1
-//@ axiom forall h Heap, s Slice, n Int, k Int :: {allStr(h, s, n), at(h, s, k)} allStr(h, s, n) && 0 <= k && k < n ==> isStr(at(h, s, k))
-//@ axiom forall h Heap, s Slice, n Int, k Int :: {allNum(h, s, n), at(h, s, k)} allNum(h, s, n) && 0 <= k && k < n ==> numOk(at(h, s, k))
+//@ lemma[C13] n: forall h Heap, s Slice, n Int, k Int :: {allStr(h, s, n), at(h, s, k)} allStr(h, s, n) && 0 <= k && k < n ==> isStr(at(h, s, k))
+//@ lemma[C13] n: forall h Heap, s Slice, n Int, k Int :: {allNum(h, s, n), at(h, s, k)} allNum(h, s, n) && 0 <= k && k < n ==> numOk(at(h, s, k))
 
 //@ func arrayMax
 //@   tags C13 C02 C03 C06
